@@ -228,11 +228,11 @@ macro_rules! tiny_e2e {
         }
     };
 }
-// @h props=C05,C04,C10,C19 tier=quick family=T prof=AB mem=5 timeout=3000 role=rsqvector256.tiny
+// @h props=C05,C04,C10:t,C19:t tier=quick family=T prof=A mem=5 timeout=3000 role=rsqvector256.tiny
 // @bound RSQVector256::new on 3 symbolic symbols: get, rank law, occs, occs_smaller for every symbol byte and every position of the machine range, checked and unchecked
 // @funcs RSQVector::new, RSQVector::from<QVector>, RSSupportPlain::new, RSQVector::rank, RSQVector::rank_unchecked, RSQVector::get, RSQVector::occs, RSQVector::occs_smaller, RSSupportPlain::rank_block, RSQVector::rank_intra_block
 tiny_e2e!(c05_tiny_256_new_n3, RSQVector256, 3, 0);
-// @h props=C05,C04,C19 tier=quick family=T mem=5 timeout=3000 role=rsqvector512.tiny
+// @h props=C05,C04:t,C19:t tier=quick family=T mem=5 timeout=3000 role=rsqvector512.tiny
 // @bound RSQVector512 collected from 3 symbolic symbols
 // @funcs RSQVector::from_iter, RSSupportPlain::new, RSQVector::rank, RSQVector::get, RSQVector::occs, RSQVector::occs_smaller
 tiny_e2e!(c05_tiny_512_collect_n3, RSQVector512, 3, 1);
@@ -330,7 +330,7 @@ macro_rules! select_unchecked_valid {
         }
     };
 }
-// @h props=C05,C04,C10 tier=quick family=T mem=16 timeout=1800 role=rsqvector256.select_unchecked.valid
+// @h props=C05,C04:t,C10 tier=quick family=T mem=16 timeout=1800 role=rsqvector256.select_unchecked.valid
 // @bound RSQVector256 over the one-symbol vector [s] (s symbolic): select_unchecked(s, 0) - a valid call - returns 0 and does not trip a debug assertion
 // @funcs RSQVector::select_unchecked, RSQVector::select, RSSupportPlain::select_block, RSQVector::select_intra_block
 select_unchecked_valid!(c05_select_unchecked_valid_256, RSQVector256);
